@@ -454,7 +454,7 @@ func runC15(c *Ctx) {
 	fixed := storeHasFix(scratch)
 	sh := c.newShard("f15", runnerFC, "caseC", "mismatchesC", "violationsC")
 	sh.limit = 1
-	nHist := c.pick(14, 200)
+	nHist := c.pick(14, 60)
 	for i := 0; i < nHist; i++ {
 		c15History(c, sh, filepath.Join(scratch, fmt.Sprintf("h%d", i)), i, fixed)
 	}
@@ -588,17 +588,19 @@ func c15History(c *Ctx, sh *shard, dir string, hi int, fixed bool) {
 	goSig := ""
 	d3 := false
 	imgDir := dir + ".img"
-	probe := func(k int, kind string, img map[string][]byte) {
+	probe := func(k int, kind string, img map[string][]byte, toCoq bool) {
 		scan, rows, qerr := recoverImage(imgDir, img)
-		var recItems []string
-		for _, b := range scan {
-			recItems = append(recItems, coqPair(coqS(b), h.in.ref(img[b+".dat"])))
+		if toCoq {
+			var recItems []string
+			for _, b := range scan {
+				recItems = append(recItems, coqPair(coqS(b), h.in.ref(img[b+".dat"])))
+			}
+			ck := "KProc"
+			if kind == "power" {
+				ck = "KPower"
+			}
+			probes = append(probes, fmt.Sprintf("mkProbe %d %s %s %s", k, ck, coqImage(img, h.in), coqList(recItems)))
 		}
-		ck := "KProc"
-		if kind == "power" {
-			ck = "KPower"
-		}
-		probes = append(probes, fmt.Sprintf("mkProbe %d %s %s %s", k, ck, coqImage(img, h.in), coqList(recItems)))
 		nontrivial := !sameImage(img, finalDir)
 		key := fmt.Sprintf("h%d k%d %s %v", hi, k, kind, sortedKeys(img))
 		c.count([]string{"C15"}, key+fmt.Sprint(imgSizes(img)), nontrivial, map[string]any{"history": opsDesc, "k": k, "kind": kind, "files": imgSizes(img), "rows": rows})
@@ -687,10 +689,12 @@ func c15History(c *Ctx, sh *shard, dir string, hi int, fixed bool) {
 				}
 			}
 		}
-		probe(k, "proc", procImage())
+		probe(k, "proc", procImage(), true)
 		if c.thorough() || c.chance(0.35) || k == total {
-			for _, img := range powerImages(c, rep, c.thorough()) {
-				probe(k, "power", img)
+			// every outcome is judged here; the model side evaluates all of them in quick and a
+			// sample per boundary in thorough (the exhaustive enumeration is large)
+			for j, img := range powerImages(c, rep, c.thorough()) {
+				probe(k, "power", img, !c.thorough() || j < 2 || c.chance(0.05))
 			}
 		}
 	}
